@@ -442,6 +442,10 @@ fn alphabet() -> Vec<char> {
     let mut v: Vec<char> = ('0'..='9').collect();
     v.extend('A'..='Z');
     v.extend(['a', 'f', 'z', '+', '-', ' ', '\0', 'é', '€']);
+    // non-ASCII characters on which the Unicode predicates differ from the ASCII ones (is_uppercase,
+    // is_alphanumeric, is_numeric, to_digit): upper-case letters of 2 and 3 bytes, digits and numerics
+    // of other scripts (seed C09-6: `is_uppercase()` let "B0É" through to a byte-index slice)
+    v.extend(['É', 'Σ', 'Я', 'Ａ', '٣', '¹', '௧', 'ǅ']);
     v
 }
 
